@@ -22,6 +22,7 @@ CONSTANTS
  InitWin = {iw}
  MaxGrant = {mg}
  Resets = {rs}
+ Shrinks = {sh}
  Deviations <- {dev}
 INVARIANT TypeOK
 INVARIANT PermitAccounting
@@ -30,8 +31,8 @@ INVARIANT UploadExact
 """
 
 
-def mc(spec="Spec", req="R3", body="B000", ms=2, iw=2, mg=0, rs=1, dev="NoDev", props=()):
-    t = MC.format(spec=spec, req=req, body=body, ms=ms, iw=iw, mg=mg, rs=rs, dev=dev)
+def mc(spec="Spec", req="R3", body="B000", ms=2, iw=2, mg=0, rs=1, dev="NoDev", props=(), sh=0):
+    t = MC.format(spec=spec, req=req, body=body, ms=ms, iw=iw, mg=mg, rs=rs, dev=dev, sh=sh)
     for p in props:
         t += f"PROPERTY {p}\n"
     return t
@@ -199,7 +200,9 @@ def run_into(chk, prop, tier):
         devs = [("DevSettings", mc(dev="DevSettings"), "Deadlock")]
     else:
         insts = [("safety+liveness: upload 2 units + GET, window 1", mc(spec="FairSpec", req="R2", body="B20", ms=1, iw=1, mg=8, rs=0, props=["NoWedge"])), ("two uploads sharing the connection window", mc(spec="FairSpec", req="R2", body="B22", ms=0, iw=1, mg=12, rs=0, props=["NoWedge"]))]
-        devs = [("DevFlow", mc(spec="FairSpec", req="R2", body="B20", ms=1, iw=1, mg=8, rs=0, dev="DevFlow", props=["NoWedge"]), "")]
+        insts.append(("INITIAL_WINDOW_SIZE lowered in mid-upload (negative window): upload 2 units + GET", mc(spec="FairSpec", req="R2", body="B20", ms=0, iw=1, mg=8, rs=0, sh=1, props=["NoWedge", "FlowRespected"])))
+        devs = [("DevFlow", mc(spec="FairSpec", req="R2", body="B20", ms=1, iw=1, mg=8, rs=0, dev="DevFlow", props=["NoWedge"]), ""),
+                ("DevFlowZero", mc(spec="FairSpec", req="R2", body="B20", ms=0, iw=1, mg=8, rs=0, sh=1, dev="DevFlowZero", props=["NoWedge"]), "")]
     states = trans = 0
     for name, cfg in insts:
         r = tlc.model_check("MCH2Conn", cfg, tag="mcH2")
